@@ -164,9 +164,12 @@ func lift(fn *Function) bool {
 	// instructions and ssa:deferstack() in functions that contain no
 	// 'defer' instructions. Eliminate ssa:deferstack() if it does not
 	// escape.
-	usesDefer := false
 	deferstackAlloc, deferstackCall := deferstackPreamble(fn)
 	eliminateDeferStack := deferstackAlloc != nil && !deferstackAlloc.Heap
+	// If the defer stack escapes, the body of a range-over-func loop may push
+	// deferred calls onto it from inside the yield function. Such a function
+	// has no Defer instruction of its own but still has to run its defers.
+	usesDefer := deferstackAlloc != nil && deferstackAlloc.Heap
 
 	// Determine which allocs we can lift and number them densely.
 	// The renaming phase uses this numbering for compact maps.
